@@ -21,12 +21,13 @@ const big = 1<<28 - 1
 
 // ---- reference model of the documented decode ----
 
+// shoelace sign, exact: coordinates are integers below 2^28, so every product fits int64
 func shoelace(r orb.Ring) float64 {
-	s := 0.0
+	var s int64
 	for i := 0; i+1 < len(r); i++ {
-		s += r[i][0]*r[i+1][1] - r[i+1][0]*r[i][1]
+		s += int64(r[i][0])*int64(r[i+1][1]) - int64(r[i+1][0])*int64(r[i][1])
 	}
-	return s
+	return float64(s)
 }
 
 func closeRing(r orb.Ring) orb.Ring {
@@ -278,7 +279,21 @@ var tri = orb.Ring{{20, 0}, {30, 0}, {20, 10}}                                  
 var triHole = orb.Ring{{21, 1}, {21, 3}, {23, 1}, {21, 1}}                                  // clockwise
 var lshape = orb.Ring{{-5, -5}, {big, -5}, {big, 0}, {0, 0}, {0, big}, {-5, big}, {-5, -5}} // ccw with extreme coordinates
 
+func square(x, y, n float64, ccw bool) orb.Ring {
+	r := orb.Ring{{x, y}, {x + n, y}, {x + n, y + n}, {x, y + n}, {x, y}}
+	if !ccw {
+		r.Reverse()
+	}
+	return r
+}
+
+const far = 1<<27 - 50
+
 var geoms = []orb.Geometry{
+	// tiny rings far from the origin: the winding test must not lose them to cancellation
+	orb.MultiPolygon{{sq}, {square(far, far, 1, true)}},
+	orb.MultiPolygon{{square(-far, -far, 2, true)}, {square(far, -far, 1, true)}, {square(big-3, big-3, 2, true)}},
+	orb.Polygon{square(far-10, far-10, 30, true), square(far, far, 1, false)},
 	orb.Point{1, 2},
 	orb.Point{-big, big},
 	orb.MultiPoint{{5, 5}},
